@@ -262,6 +262,92 @@ Definition S_status_after_load : Prop :=
     0 <= T -> (forall t, In t times -> 0 < t <= T) -> (forall v, 0 < v <= T -> In v times) ->
     run_status true sp (map (fun t => EvProgress t 0) times) status0 = mkS T T.
 
+(** * Concurrent status recalculations (C19, schedules) *)
+From Orbit Require Export Model.StatusConc.
+
+Definition cstatus_le (a b : cstate) : Prop :=
+  status_le (c_st a) (c_st b) /\ c_len a <= c_len b.
+
+(** the invariant of the concurrent model: progress never exceeds the larger of the maximum
+    and the log length (progress <= max alone is NOT invariant once the log can grow between
+    the two halves of recalculateReplicationStatus, mutex or not) *)
+Definition cstatus_inv (c : cstate) : Prop :=
+  s_progress (c_st c) <= Z.max (s_max (c_st c)) (c_len c).
+
+(** C19 monotone under every schedule: with the mutex (atomic = true) and the monotone
+    maximum, for every set of threads, every schedule and every pair of consecutive states:
+    neither value (nor the log length) decreases, and the invariant is kept *)
+Definition S_statusconc_monotone : Prop :=
+  forall (ps : list prog) (sched : list label) (len0 : Z) (s : status),
+    s_progress s <= Z.max (s_max s) len0 ->
+    forall i a b,
+      nth_error (ctrace true true sched (cinit len0 s ps)) i = Some a ->
+      nth_error (ctrace true true sched (cinit len0 s ps)) (S i) = Some b ->
+      cstatus_le a b /\ cstatus_inv b.
+
+(** upper bounds: when the announced times and the log length never exceed B, neither does
+    the maximum nor progress, in every reachable state *)
+Definition S_statusconc_bounded : Prop :=
+  forall (ps : list prog) (sched : list label) (len0 : Z) (s : status) (B : Z),
+    s_progress s <= Z.max (s_max s) len0 -> s_max s <= B ->
+    (forall p a, In p ps -> In a (prog_args p) -> a <= B) ->
+    let c := crun true true sched (cinit len0 s ps) in
+    c_len c <= B ->
+    s_max (c_st c) <= B /\ s_progress (c_st c) <= B /\ cstatus_inv c.
+
+(** linearisation: with the mutex every reachable status is the result of running the
+    SEQUENTIAL primitives of Model/Status.v one after the other, each on a log length
+    between the initial and the current one *)
+Definition S_statusconc_sequential : Prop :=
+  forall (mm : bool) (ps : list prog) (sched : list label) (len0 : Z) (s : status),
+    let c := crun true mm sched (cinit len0 s ps) in
+    exists prims : list (phase * Z),
+      c_st c = fold_left (prim_step mm) prims s /\
+      (forall x, In x prims -> len0 <= snd x <= c_len c).
+
+(** C19 at rest under every schedule: sched1, then sched2 during which the log does not grow
+    any more (its length stays L); the announced times and the initial maximum do not
+    exceed L (complete log); some thread i still had its maximum recalculation to read and
+    some thread j (possibly the same: recalculateReplicationStatus) its progress
+    recalculation when the log reached its final length; all threads have finished:
+    progress = max = L *)
+Definition S_statusconc_at_rest : Prop :=
+  forall (ps : list prog) (sched1 sched2 : list label) (len0 : Z) (s : status) i j ti tj a,
+    s_progress s <= Z.max (s_max s) len0 ->
+    let c1 := crun true true sched1 (cinit len0 s ps) in
+    let c2 := crun true true sched2 c1 in
+    let L := c_len c1 in
+    c_len c2 = L ->
+    s_max s <= L ->
+    (forall p x, In p ps -> In x (prog_args p) -> x <= L) ->
+    nth_error (c_thr c1) i = Some ti -> In (PMax a) (t_todo ti) -> t_loc ti = None ->
+    nth_error (c_thr c1) j = Some tj -> In PProg (t_todo tj) -> t_loc tj = None ->
+    threads_done c2 ->
+    c_st c2 = mkS L L.
+
+(** without the mutex (the code before the repair) the maximum decreases: a local write of
+    time 6 on a log of 5 entries reads max = 5, an announcement of clock 9 raises the
+    maximum to 9, the writer then stores 6 *)
+Definition S_statusconc_refuted_nonatomic : Prop :=
+  exists (ps : list prog) (sched : list label) (len0 : Z) (s : status),
+    s_progress s <= s_max s /\
+    exists i a b,
+      nth_error (ctrace false true sched (cinit len0 s ps)) i = Some a /\
+      nth_error (ctrace false true sched (cinit len0 s ps)) (S i) = Some b /\
+      s_max (c_st b) < s_max (c_st a).
+
+(** ... progress decreases, and at rest (all threads finished, the last status recalculation
+    started after the last growth) progress differs from the maximum *)
+Definition S_statusconc_refuted_nonatomic_progress : Prop :=
+  exists (ps : list prog) (sched : list label) (len0 : Z) (s : status),
+    s_progress s <= s_max s /\
+    (exists i a b,
+      nth_error (ctrace false true sched (cinit len0 s ps)) i = Some a /\
+      nth_error (ctrace false true sched (cinit len0 s ps)) (S i) = Some b /\
+      s_progress (c_st b) < s_progress (c_st a)) /\
+    let c := crun false true sched (cinit len0 s ps) in
+    threads_done c /\ s_progress (c_st c) < s_max (c_st c) /\ s_max (c_st c) = c_len c.
+
 (** * Wire codecs (C12, C13, C20) *)
 From Orbit Require Export Model.Wire Model.Transport Model.Emitter Model.Writers.
 
@@ -564,3 +650,82 @@ Definition S_net_refuted_without_remote_heads : Prop :=
   exists U (a b : nrep),
     (forall h, In h (n_log a) -> In h (map u_hash U)) /\
     ~ same_setN (n_log (exchange U (mkNR (n_log a) []) b)) (n_log (exchange U a b)).
+
+(** * One store: local writers concurrent with the replication merger (C16, C06, C07) *)
+From Orbit Require Export Model.StoreConc.
+
+(** With the index rebuilds serialised ([ser = true]: a mutex around [BaseStore.updateIndex]),
+    for every number of writers, every list of merge batches and EVERY schedule: *)
+
+(** (a) the view reflects only entries of the log, and along a run neither the log nor the
+    view ever loses an entry ([s2] is any continuation of [s1]) *)
+Definition S_storeconc_view_monotone : Prop :=
+  forall n batches sched1 sched2,
+    let s1 := srun true sched1 (sinit n batches) in
+    let s2 := srun true sched2 s1 in
+    incl (s_view s1) (s_log s1) /\ incl (s_view s1) (s_view s2) /\ incl (s_log s1) (s_log s2).
+
+(** (b) never ahead of the state: the entries of every emitted event are reflected by the
+    view of the current state and of every later state — a subscriber can only receive an
+    event at or after its emission *)
+Definition S_storeconc_events_never_ahead : Prop :=
+  forall n batches sched1 sched2,
+    let s1 := srun true sched1 (sinit n batches) in
+    let s2 := srun true sched2 s1 in
+    forall ev, In ev (s_events s1) ->
+      incl (ev_entries ev) (s_view s1) /\ In ev (s_events s2) /\ incl (ev_entries ev) (s_view s2).
+
+(** (c) exactly once: the emitted list holds exactly one write event for every writer that
+    has passed its emit step, carrying that writer's entry (which is in the log), none for
+    any other writer (in particular none for a writer that has not appended), and the
+    replicated events are exactly the merged batches, in the merger's order *)
+Definition S_storeconc_events_exactly_once : Prop :=
+  forall n batches sched,
+    let s := srun true sched (sinit n batches) in
+    (forall i, w_emitted s i -> count_occ Nat.eq_dec (wevents (s_events s)) i = 1%nat) /\
+    (forall i, ~ w_emitted s i -> count_occ Nat.eq_dec (wevents (s_events s)) i = 0%nat) /\
+    (forall i, In i (wevents (s_events s)) -> w_appended s i /\ In i (s_log s)) /\
+    revents (s_events s) ++ mcur (s_mpc s) ++ s_todo s = batches.
+
+(** (d) at rest the view is complete: view = log (as sets) = the writers' entries and all
+    the batches *)
+Definition S_storeconc_complete_at_rest : Prop :=
+  forall n batches sched,
+    let s := srun true sched (sinit n batches) in
+    sall_done s ->
+    (forall x, In x (s_view s) <-> In x (s_log s)) /\
+    (forall x, In x (s_log s) <-> (x < n)%nat \/ In x (concat batches)) /\
+    length (wevents (s_events s)) = n /\ revents (s_events s) = batches.
+
+(** Without the serialisation (the tree before the repair) a stale rebuild can be applied
+    after a fresher one: there is a schedule after which every thread is done, an emitted
+    event's entries are not reflected by the view, and the view is not the whole log. *)
+Definition S_storeconc_refuted_unserialised : Prop :=
+  exists n batches sched,
+    let s := srun false sched (sinit n batches) in
+    sall_done s /\
+    (exists ev, In ev (s_events s) /\ ~ incl (ev_entries ev) (s_view s)) /\
+    ~ (forall x, In x (s_log s) -> In x (s_view s)).
+
+(** The successive views of a run (one per schedule label) *)
+Fixpoint sviews (ser : bool) (sched : list nat) (s : sst) : list (list nat) :=
+  match sched with
+  | [] => []
+  | l :: r =>
+    let s' := match sstep ser s l with Some s' => s' | None => s end in
+    s_view s' :: sviews ser r s'
+  end.
+
+(** C06 corollary: the inputs of the successive index rebuilds grow, so the key-value map
+    that is never reset represents the replay of the last one ([S_kv_run_represents]); at rest
+    that is the whole log.  [listing] turns a set of entry numbers into the listing
+    [oplog.Values()] of those entries (any monotone function into well-formed operations). *)
+Definition S_storeconc_kv_replay : Prop :=
+  forall n batches sched (listing : list nat -> list entry),
+    (forall V V', incl V V' -> incl (listing V) (listing V')) ->
+    (forall V e, In e (listing V) -> kv_op_ok e = true) ->
+    let s := srun true sched (sinit n batches) in
+    let hist := map listing (sviews true sched (sinit n batches)) in
+    represents (kv_run hist) (kv_replay (last hist [])) /\
+    (sched <> [] -> last hist [] = listing (s_view s)) /\
+    (sall_done s -> forall x, In x (s_view s) <-> In x (s_log s)).
